@@ -23,9 +23,21 @@ P = {
   "The SSE2 lookup routines are validated against their portable twins for every index 0..15 and every table content: the assembly is parsed and abstractly interpreted (loop unrolled by constant propagation, XMM lanes symbolic), each stored lane must be the table limb / identity constant the Go reference (abstractly interpreted on a fully symbolic table) stores, under the gc/amd64 layout from go/types; store footprint inside the coordinate bytes; idx never reaches an address or branch; the build-constraint surface of the module is exactly the stub/assembly/reference triple with identical declaration sets in every configuration; all call sites pass 4-bit windows.",
   "Trusted: Go assembler semantics of the mnemonics used (tabled in internal/asmx), go/types.SizesFor(gc, amd64), go/ssa, the checker. Not decided: agreement of the avo generator (separate module internal/asm) with the checked-in .s file.",
   "abstract interpretation of Go assembly + abstract interpretation of the Go twin over go/ssa; lane-by-lane comparison"),
+ "C04": ("other",
+  "Static decision for all scalars and points: lattice constants verified numerically (lambda^3=1, beta^3=1, lambda*G=(beta*Gx,Gy), basis determinant n, g1/g2 roundings); bound on |k1|,|k2| derived in exact rational arithmetic from the literals and compared with the window the ladder is found to consume (16 bytes); splitGLV terms; rounded 256x256 product proven by limb equations (incl. the carry into the top limb and the rounding bit); sign pairing; table = (j+1)P; lookups enumerated for idx 0..15; the unrolled ladder of both GLV multiplies is recognised as sum nibble*16^k and equals s*P in all sign cases, also with the receiver aliasing P.",
+  "Trusted: C01-C03, C19 (assembly lookup), the endomorphism fact that (x,y)->(beta x,y) is multiplication by lambda on the whole cyclic group once it holds for G; go/ssa; the checker.",
+  "abstract interpretation over go/ssa in a Z/n-module domain + exact rational bound computation + limb-equation proof"),
+ "C05": ("other",
+  "All 8160 embedded table entries compared with independently computed (j+1)*256^i*G (exhaustive over the file); decoder index map and canonical-only decoding obtained by abstractly interpreting the initialiser on a symbolic file; odd tables = entries 16(j+1)-1; both fixed-base ladders recognised as sum over all 64 nibbles = s*G; affine/huge lookups enumerated for every index (16/256) incl. the masked idx=0 case; unsafe prefix reinterpretation layout-valid.",
+  "Trusted: SEC 2 generator, independent big-integer arithmetic (internal/refmath), C01/C03, C19 for the assembly lookup; go/ssa; the checker.",
+  "exhaustive constant verification by independent arithmetic + abstract interpretation over go/ssa in a Z/n-module domain"),
+ "C16": ("other",
+  "DoubleScalarMultBasepointVartime = u1*G + u2*P and MultiScalarMult(Vartime) = sum s_i*P_i decided by abstract interpretation in the Z/n-module domain for list lengths 0..3 with every receiver-among-inputs aliasing, mismatched lengths panic, length 1 delegates to the GLV multiply; a loop-shape rule (loops run j = 0..l-1 touching entry j only) extends the unrolled instances to every length.",
+  "Trusted: C03-C05; the extension from lengths 0..3 to all lengths rests on the loop-shape rule; go/ssa; the checker.",
+  "abstract interpretation over go/ssa in a Z/n-module domain + loop-shape rule"),
 }
 
-CLAIMED = ["C01", "C02", "C03", "C19"]
+CLAIMED = ["C01", "C02", "C03", "C04", "C05", "C16", "C19"]
 
 REASON_PENDING = "check under construction in this session (see DESIGN.md section 2); not yet claimed"
 
